@@ -47,11 +47,11 @@ SPEC = {
           domain="variable [[T!]!]! x every location type with nesting <= 1", bound="nesting 2 on one side, <= 1 on the other"),
         H("c29_usage_loc_l2_m0", functions=F_V, tiers=("thorough",), heavy=True,
           domain="location [[T]] x every variable type with nesting <= 1", bound="nesting 2 on one side, <= 1 on the other"),
-        H("c29_usage_loc_l2_m1", functions=F_V, tiers=("thorough",), heavy=True,
+        H("c29_usage_loc_l2_m1", functions=F_V, tiers=("thorough",), heavy=True, optional=True,
           domain="location [[T]]! x every variable type with nesting <= 1", bound="nesting 2 on one side, <= 1 on the other"),
-        H("c29_usage_loc_l2_m5", functions=F_V, tiers=("thorough",), heavy=True,
+        H("c29_usage_loc_l2_m5", functions=F_V, tiers=("thorough",), heavy=True, optional=True,
           domain="location [[T!]]! x every variable type with nesting <= 1", bound="nesting 2 on one side, <= 1 on the other"),
-        H("c29_usage_loc_l2_m7", functions=F_V, tiers=("thorough",), heavy=True,
+        H("c29_usage_loc_l2_m7", functions=F_V, tiers=("thorough",), heavy=True, optional=True,
           domain="location [[T!]!]! x every variable type with nesting <= 1", bound="nesting 2 on one side, <= 1 on the other"),
         H("c29_variable_usage_null_default", functions=F_V, expect="finding", kf="C29_NULL_DEFAULT", heavy=True,
           signature="null variable default must not license",
